@@ -485,6 +485,44 @@ def softwareOut (sw ver : List Char) : List Char :=
 /-- `ImageDescription._legacy_exposure`: `"Pylake" in software and "Exposure time (ms)" not in json`. -/
 def legacyExposure (sw : List Char) (hasKey : Bool) : Bool := hasSub "Pylake".toList sw && !hasKey
 
+/-! ### 10. alignment status and the keys of `ImageDescription.for_export` -/
+
+def c0Key : List Char := "Channel 0 alignment".toList
+def c1Key : List Char := "Channel 1 alignment".toList
+def c2Key : List Char := "Channel 2 alignment".toList
+def a0Key : List Char := "Applied channel 0 alignment".toList
+def a1Key : List Char := "Applied channel 1 alignment".toList
+def a2Key : List Char := "Applied channel 2 alignment".toList
+def pylakeKey : List Char := "Pylake".toList
+
+inductive AlignStatus where
+  | notApplicable | ready | applied | missing
+deriving Repr, DecidableEq
+
+/-- `re.search(r"^Applied (.*)channel(.*)$", key)` (keys without line breaks). -/
+def appliedKey (k : List Char) : Bool := "Applied ".toList.isPrefixOf k && hasSub "channel".toList (k.drop 8)
+
+/-- `ImageDescription.__init__`: the alignment status from the colour type and the JSON keys. -/
+def alignStatus (isRgb : Bool) (keys : List (List Char)) : AlignStatus :=
+  if !isRgb then .notApplicable
+  else if keys.contains c0Key then .ready
+  else if keys.any appliedKey then .applied
+  else .missing
+
+/-- `Alignment.do_alignment`. -/
+def doAlignment (requested : Bool) (st : AlignStatus) : Bool := st == .ready && requested
+
+/-- `out[f"Applied channel {j} alignment"] = out.pop(f"Channel {j} alignment")` for `j` in 0..2. -/
+def renameKey (k : List Char) : List Char :=
+  if k = c0Key then a0Key else if k = c1Key then a1Key else if k = c2Key then a2Key else k
+
+/-- `out["Pylake"] = {...}`: the key is there afterwards, once. -/
+def addPylake (ks : List (List Char)) : List (List Char) := if ks.contains pylakeKey then ks else ks ++ [pylakeKey]
+
+/-- The JSON keys of `ImageDescription.for_export` (as a list; the order of a dict is not modelled). -/
+def forExportKeys (isRgb requested : Bool) (keys : List (List Char)) : List (List Char) :=
+  addPylake (if doAlignment requested (alignStatus isRgb keys) then keys.map renameKey else keys)
+
 /-! ### protocol -/
 open Verif.Proto
 
@@ -562,6 +600,7 @@ def showOuts (l : List (OutPage Int)) : String := "[" ++ ";".intercalate (l.map 
         the whole `export_tiff`: `ok [codes|p/q|v,…;…]` (DateTime characters, exposure double, pixels per page) or the error
   `c18.software [codes] [version codes] <twice T/F>`  the Software tag `ImageStack.export_tiff` writes (after one / two exports)
   `c18.islegacy [codes] <has exposure key T/F>`  `ImageDescription._legacy_exposure`
+  `c18.forexport <rgb> <align requested> <twice> [key;key;…]`  the JSON keys `for_export` writes (keys as character codes)
   `c18.kymoexp [s…] [e…]`  the "Exposure time (ms)" of a kymograph from its line ranges without dead time: `[p/q]`
   `c18.export <h> <w> [starts] [stops] [expStops] <legacy T/F> <again T/F> op…`
         run the selection program on a fresh stack over these pages (raw pixels = identifiers), export;
@@ -625,6 +664,13 @@ def handle : List String → Option String
   | ["c18.islegacy", sw, key] => do
     let sw ← chars? sw; let key ← bool? key
     some (showBool (legacyExposure sw key))
+  | ["c18.forexport", rgb, req, twice, keys] => do
+    let rgb ← bool? rgb; let req ← bool? req; let twice ← bool? twice
+    let keys ← listListOf? nat? keys
+    let ks := keys.map fun k => k.map Char.ofNat
+    let o := forExportKeys rgb req ks
+    let o := if twice then forExportKeys rgb req o else o
+    some (showListList (fun (c : Char) => toString c.toNat) o)
   | ["c18.kymoexp", s, e] => do
     let s ← intList? s; let e ← intList? e
     if s.length ≠ e.length then none
